@@ -106,6 +106,10 @@ func ErrSites(w *kit.World, files []string) []ErrSite {
 					if strings.Contains(callee, "/cerrors.") || strings.Contains(callee, "/conduiterr.") || strings.HasPrefix(callee, "errors.") || strings.HasPrefix(callee, "fmt.") {
 						continue
 					}
+					// best-effort removal of temporary files is cleanup, not a step of the mechanism
+					if callee == "os.Remove" || callee == "os.RemoveAll" {
+						continue
+					}
 					site := ErrSite{Func: kit.FuncKey(fn), Callee: callee, Pos: w.Pos(call.Pos())}
 					site.Propagated = propagated(fn, call)
 					out = append(out, site)
